@@ -57,6 +57,19 @@ func genClientStream(rng *rand.Rand, allowRetry bool) []byte {
 			sb.WriteString(pick(rng, "\n", ": c\n", "foo\n"))
 		}
 	}
+	if rng.Intn(30) == 0 {
+		// a long id-less tail: the scanner's 4 KiB buffer is compacted and refilled several times after the last id
+		// (whatever was remembered from earlier events must not live in that buffer)
+		total := 4500 + rng.Intn(5000)
+		for n := 0; n < total; {
+			ev := "data: " + strings.Repeat(pick(rng, "x", ": s", "id: t", "y"), 1+rng.Intn(60)) + pick(rng, "\n\n", "\r\n\r\n")
+			if rng.Intn(8) == 0 {
+				ev = "event: " + pick(rng, "t", "long-type-name") + "\n" + ev
+			}
+			sb.WriteString(ev)
+			n += len(ev)
+		}
+	}
 	switch rng.Intn(6) {
 	case 0: // an event that is never completed by a blank line
 		sb.WriteString(genIDEvent(rng, allowRetry))
